@@ -663,6 +663,19 @@ func actHeapProtect(e *Env, a J) J {
 		h.keep(pw)
 		h.out = pw
 		h.protSnap = projChain(h.src.Payloads)
+		// a receiver that has no keys yet decodes the datagram as it is and keeps the message (the Encrypted payload is a payload
+		// like any other); its receive buffer goes on to the next datagram: the kept message stays what it was
+		rb := append([]byte{}, pw...)
+		pm := new(message.IKEMessage)
+		if perr := pm.Decode(rb); perr == nil {
+			before := projChain(pm.Payloads)
+			for i := range rb {
+				rb[i] = ^rb[i]
+			}
+			o["skplain"] = eqJ(before, projChain(pm.Payloads)) && eqJ(projChain(pm.Payloads), before)
+		} else {
+			o["skplain"] = true
+		}
 	}
 	hj := J{}
 	projHeader(h.src.IKEHeader, hj)
